@@ -134,6 +134,15 @@ func Solve(cfg *SolverCfg, script string, tag string) *SolveResult {
 	}
 	res.Ms = time.Since(start).Milliseconds()
 	res.Status = "timeout"
+	allErr := true
+	for _, v := range res.All {
+		if v != "error" {
+			allErr = false
+		}
+	}
+	if allErr {
+		res.Status = "error"
+	}
 	var sb strings.Builder
 	for k, v := range res.All {
 		fmt.Fprintf(&sb, "%s: %s\n", k, v)
